@@ -116,144 +116,281 @@ class LexerSource:
         self.rev_escapes = self.ev.module_const('pico8.lua.lexer',
                                                 '_STRING_REVERSE_ESCAPES')
 
-    # -- procedural if-chain -------------------------------------------------
+    # -- procedural part: paths of Lexer._process_token -----------------------
     def _extract_chain(self):
+        """Branch structure of _process_token from its symbolic paths (not
+        from the shape of its if-chain): which continuation state or opener
+        test selects a path, in which order the tests are made."""
+        from .absint.symbody import SymBody
         f = self.f
         if len(f.params()) < 2:
             raise AnalysisError('_process_token signature changed')
         self.s_name = f.params()[1]
-        chain = None
-        for st in f.node.body:
-            if isinstance(st, ast.If):
-                chain = st
-                break
-        if chain is None:
-            raise Vanished('if-chain of Lexer._process_token not found')
+        self.sym = SymBody(self.ctx, f, max_paths=600)
+        self.paths = self.sym.run(f.node.body)
+        branches = {}
+        order = []
+        order_ok = True
+        for p in self.paths:
+            key = None
+            seen_opener_test = False
+            for (t, val) in p.conds:
+                c = self._classify_cond(t)
+                if c is None:
+                    continue
+                if c[0] == 'state':
+                    if seen_opener_test:
+                        order_ok = False
+                    if val and key is None:
+                        key = c
+                else:
+                    seen_opener_test = True
+                    if val and key is None:
+                        key = c
+            if key is None:
+                key = ('table',)
+            if key not in branches:
+                branches[key] = []
+                order.append(key)
+            branches[key].append(p)
+        self.branches = branches
+        self.state_order_ok = order_ok
         links = []
-        node = chain
-        while True:
-            links.append(self._classify(node.test, node.body, node))
-            if len(node.orelse) == 1 and isinstance(node.orelse[0], ast.If):
-                node = node.orelse[0]
-            else:
-                if node.orelse:
-                    links.append(self._classify(None, node.orelse, node))
-                break
+        for key in order:
+            d = {'node': f.node, 'paths': branches[key], 'kind': key[0]}
+            if key[0] == 'state':
+                d['state'] = key[1]
+            elif key[0] == 'prefix':
+                d['prefixes'] = list(key[1])
+            elif key[0] == 'regex':
+                d['pattern'] = key[1]
+            links.append(d)
         self.links = links
         kinds = [l['kind'] for l in links]
         if 'table' not in kinds:
             raise Vanished('table-driven branch of _process_token not found')
-        # continuation states must be tested before any opener (typestate)
-        first_open = min([i for i, k in enumerate(kinds)
-                          if k in ('prefix', 'regex')] or [len(kinds)])
-        self.state_order_ok = all(
-            i < first_open for i, k in enumerate(kinds) if k == 'state')
-        self.table_last = kinds[-1] == 'table'
+        # the table branch: every state and opener test negative
+        tl = [l for l in links if l['kind'] == 'table'][0]
+        loop = None
+        loop_f = None
+        for p in tl['paths']:
+            for e in p.events:
+                if e[0] == 'loop' and isinstance(e[1], ast.For) and \
+                        isinstance(e[1].iter, ast.Name) and \
+                        e[1].iter.id == '_TOKEN_MATCHERS':
+                    loop, loop_f = e[1], f
+        if loop is None:
+            for (fn, x) in norm.walk_deep(self.model, f, list(f.node.body)):
+                if isinstance(x, ast.For) and isinstance(x.iter, ast.Name) \
+                        and x.iter.id == '_TOKEN_MATCHERS':
+                    loop, loop_f = x, fn
+        if loop is None:
+            raise Vanished('loop over _TOKEN_MATCHERS not found')
+        tl['loop'] = loop
+        tl['loop_func'] = loop_f
+        n_tests = len([k for k in order if k[0] != 'table'])
+        self.table_last = all(
+            len([1 for (t, v) in p.conds
+                 if self._classify_cond(t) is not None and not v]) >= n_tests
+            for p in tl['paths'])
         states = {l['state']: l for l in links if l['kind'] == 'state'}
         for l in links:
             if l['kind'] in ('prefix', 'regex'):
-                st = [c for c in l.get('sets_state') or [] if c in states]
+                sets = set()
+                for p in l['paths']:
+                    for e in p.events:
+                        if e[0] == 'set' and e[1].startswith('self.') and \
+                                not (isinstance(e[2], ast.Constant) and
+                                     e[2].value is None):
+                            sets.add(e[1][5:])
+                st = [c for c in sorted(sets) if c in states]
                 l['sets_state'] = st[0] if st else None
-                cont = states.get(l['sets_state'])
-                l['cont'] = cont
+                l['cont'] = states.get(l['sets_state'])
+                if l['kind'] == 'regex':
+                    # the pattern the body re-matches to capture the level
+                    for p in l['paths']:
+                        for e in p.events:
+                            if e[0] == 'set':
+                                for x in ast.walk(e[2]):
+                                    ru = norm.regex_use(self.ctx, f, x)
+                                    if ru is not None and \
+                                            ru.method == 'match':
+                                        l['pattern_body'] = ru.pattern
                 self.openers.append(l)
 
-    def _classify(self, test, body, node):
+    def _classify_cond(self, t):
+        """('state', X) | ('prefix', (b..)) | ('regex', pattern) | None"""
         s = self.s_name
-        d = {'node': node, 'body': body, 'test': test}
-        if test is None:
-            for (fn, x) in norm.walk_deep(self.model, self.f, list(body)):
-                if isinstance(x, ast.For) and isinstance(
-                        x.iter, ast.Name) and \
-                        x.iter.id == '_TOKEN_MATCHERS':
-                    d['kind'] = 'table'
-                    d['loop'] = x
-                    d['loop_func'] = fn
-                    return d
-            d['kind'] = 'other'
-            return d
-        # self.X is not None
-        if isinstance(test, ast.Compare) and len(test.ops) == 1 and \
-                isinstance(test.ops[0], ast.IsNot) and \
-                isinstance(test.left, ast.Attribute) and \
-                isinstance(test.left.value, ast.Name) and \
-                test.left.value.id == 'self' and \
-                isinstance(test.comparators[0], ast.Constant) and \
-                test.comparators[0].value is None:
-            d['kind'] = 'state'
-            d['state'] = test.left.attr
-            return d
-        # s.startswith(CONST) [or ...] / s.startswith((A, B))
-        prefixes = norm.prefixes_of(self.ctx, self.f, test, s)
-        if prefixes:
-            d['kind'] = 'prefix'
-            d['prefixes'] = prefixes
-            d['sets_state'] = self._state_set_in(body)
-            return d
-        # re.match(CONST, s) / COMPILED.match(s)
-        ru = norm.regex_use(self.ctx, self.f, test)
+        neg = False
+        while isinstance(t, ast.UnaryOp) and isinstance(t.op, ast.Not):
+            t = t.operand
+            neg = not neg
+        if neg:
+            return None
+        if isinstance(t, ast.Compare) and len(t.ops) == 1 and \
+                isinstance(t.ops[0], ast.IsNot) and \
+                isinstance(t.left, ast.Attribute) and \
+                isinstance(t.left.value, ast.Name) and \
+                t.left.value.id == 'self' and \
+                isinstance(t.comparators[0], ast.Constant) and \
+                t.comparators[0].value is None:
+            return ('state', t.left.attr)
+        pre = norm.prefixes_of(self.ctx, self.f, t, s)
+        if pre:
+            return ('prefix', tuple(pre))
+        ru = norm.regex_use(self.ctx, self.f, t)
         if ru is not None and ru.method == 'match' and \
                 isinstance(ru.subject, ast.Name) and ru.subject.id == s and \
                 ru.pos is None:
-            d['kind'] = 'regex'
-            d['pattern'] = ru.pattern
-            d['sets_state'] = self._state_set_in(body)
-            # the body re-matches with a capturing group for the level
-            for x in body:
-                for c in walk_own(x):
-                    r2 = norm.regex_use(self.ctx, self.f, c)
-                    if r2 is not None and r2.method == 'match':
-                        d['pattern_body'] = r2.pattern
-            return d
-        raise AnalysisError(
-            'unrecognised branch test in Lexer._process_token: ' +
-            ast.unparse(test)[:80])
+            return ('regex', ru.pattern)
+        return None
 
     def _state_set_in(self, body):
-        """attribute self.X assigned a non-None value in an opener body whose
-        X is tested by a continuation branch."""
-        cands = []
-        for st in body:
-            for n in walk_own(st):
-                if isinstance(n, ast.Assign):
-                    for t in n.targets:
-                        if isinstance(t, ast.Attribute) and \
-                                isinstance(t.value, ast.Name) and \
-                                t.value.id == 'self' and not (
-                                    isinstance(n.value, ast.Constant) and
-                                    n.value.value is None):
-                            cands.append(t.attr)
-        return cands
+        return []
 
-    # -- terminators of the continuation branches ---------------------------
-    def comment_terminator(self, link):
-        """bytes literal searched by s.index(...) / s.find(...) and the number
-        of bytes skipped past its start."""
-        f = self.f
-        for st in link['body']:
-            for n in walk_own(st):
-                fu = norm.find_use(self.ctx, f, n)
-                if fu is None or not isinstance(fu[1], bytes):
+    # -- what the paths of one branch do ---------------------------------------
+    def branch_nodes(self, link):
+        """(function, node) for every AST node of the substituted expressions
+        of the branch's paths; loops the paths pass through are walked as
+        source (with the helpers they call)"""
+        seen_loops = set()
+        for p in link['paths']:
+            exprs = [t for (t, _v) in p.conds]
+            if p.ret is not None:
+                exprs.append(p.ret)
+            for e in p.events:
+                if e[0] == 'loop':
+                    if id(e[1]) not in seen_loops:
+                        seen_loops.add(id(e[1]))
+                        for r in norm.walk_deep(self.model, self.f, [e[1]]):
+                            yield r
                     continue
-                term = fu[1]
-                # the skip: <found> + K, K a constant or len(<the terminator>)
-                add = None
-                result_names = set()
-                p = getattr(n, '_parent', None)
-                if isinstance(p, ast.Assign) and p.value is n:
-                    result_names = {t.id for t in p.targets
-                                    if isinstance(t, ast.Name)}
-                for st2 in link['body']:
-                    for b in walk_own(st2):
-                        if not (isinstance(b, ast.BinOp) and
-                                isinstance(b.op, ast.Add)):
-                            continue
-                        if b.left is n or (isinstance(b.left, ast.Name) and
-                                           b.left.id in result_names):
-                            v = norm.fold(self.ctx, f, b.right)
-                            if isinstance(v, int):
-                                add = v
-                return term, add
+                for x in e[1:-1]:
+                    if isinstance(x, ast.AST):
+                        exprs.append(x)
+                    elif isinstance(x, list):
+                        exprs.extend(y for y in x if isinstance(y, ast.AST))
+            for ex in exprs:
+                for n in ast.walk(ex):
+                    yield self.f, n
+
+    def loop_paths(self, link, which=None):
+        """per-iteration paths of the loops a branch passes through: the loop
+        body run from the environment at loop entry (aliases resolved).
+        -> [(loop node, [Path])]"""
+        out = []
+        seen = set()
+        for p in link['paths']:
+            for e in p.events:
+                if e[0] == 'loop' and id(e[1]) not in seen:
+                    seen.add(id(e[1]))
+                    if which is not None and not which(e[1]):
+                        continue
+                    env = dict(e[2])
+                    # what the loop itself assigns is unknown at its head
+                    for x in ast.walk(e[1]):
+                        if isinstance(x, ast.Name) and \
+                                isinstance(x.ctx, ast.Store):
+                            env.pop(x.id, None)
+                    out.append((e[1], self.sym.run(e[1].body, env), env))
+        return out
+
+    def found_split(self, link):
+        """paths of a continuation branch split by whether the terminator was
+        found in this chunk: -> (found paths, not-found paths, needle)"""
+        found, notfound = [], []
+        needle = None
+        for p in link['paths']:
+            verdict = None
+            for (t, val) in p.conds:
+                r = self._found_cond(t)
+                if r is None:
+                    continue
+                is_found, nd = r
+                verdict = is_found if val else not is_found
+                needle = nd if nd is not None else needle
+            if verdict is None:
+                # try/except form: s.index(T) raises when absent
+                if any(ast.unparse(t).startswith('raised:')
+                       for (t, _v) in p.conds):
+                    verdict = False
+                else:
+                    verdict = True
+            (found if verdict else notfound).append(p)
+        return found, notfound, needle
+
+    def _found_cond(self, t):
+        """test expression -> (True when it means FOUND, needle expr)"""
+        s = self.s_name
+        if isinstance(t, ast.UnaryOp) and isinstance(t.op, ast.Not):
+            r = self._found_cond(t.operand)
+            return None if r is None else (not r[0], r[1])
+
+        def is_search(e):
+            if isinstance(e, ast.Call) and isinstance(e.func, ast.Attribute):
+                if e.func.attr in ('find', 'index') and \
+                        isinstance(e.func.value, ast.Name) and \
+                        e.func.value.id == s and e.args:
+                    return e.args[0]
+                if self.model.ext_name(self.module, e.func) == 're.search' \
+                        and len(e.args) >= 2:
+                    return e.args[0]
+            return None
+        nd = is_search(t)
+        if nd is not None:
+            return True, nd                    # truthiness of re.search(..)
+        if isinstance(t, ast.Compare) and len(t.ops) == 1:
+            nd = is_search(t.left)
+            c = t.comparators[0]
+            v = c.value if isinstance(c, ast.Constant) else (
+                -c.operand.value if isinstance(c, ast.UnaryOp) and
+                isinstance(c.op, ast.USub) and
+                isinstance(c.operand, ast.Constant) else None)
+            if nd is not None and isinstance(v, int):
+                op = t.ops[0]
+                if isinstance(op, ast.Lt) and v == 0:
+                    return False, nd
+                if isinstance(op, ast.GtE) and v == 0:
+                    return True, nd
+                if isinstance(op, ast.Eq) and v == -1:
+                    return False, nd
+                if isinstance(op, ast.NotEq) and v == -1:
+                    return True, nd
+                if isinstance(op, ast.Gt) and v == -1:
+                    return True, nd
+                if isinstance(op, ast.LtE) and v == -1:
+                    return False, nd
+            if nd is not None and isinstance(c, ast.Constant) and \
+                    c.value is None:
+                if isinstance(t.ops[0], ast.IsNot):
+                    return True, nd
+                if isinstance(t.ops[0], ast.Is):
+                    return False, nd
+        return None
+
+    def comment_terminator(self, link):
+        """bytes literal searched by s.index(...) / s.find(...) in a block
+        continuation and the number of bytes consumed past its start."""
+        s = self.s_name
+        found, _nf, _nd = self.found_split(link)
+        for p in found:
+            e = p.ret
+            if isinstance(e, ast.BinOp) and isinstance(e.op, ast.Add):
+                for a, b in ((e.left, e.right), (e.right, e.left)):
+                    if isinstance(a, ast.Call) and \
+                            isinstance(a.func, ast.Attribute) and \
+                            a.func.attr in ('find', 'index') and \
+                            isinstance(a.func.value, ast.Name) and \
+                            a.func.value.id == s and a.args and \
+                            isinstance(const_str(a.args[0]), bytes):
+                        add = b.value if isinstance(b, ast.Constant) and \
+                            isinstance(b.value, int) else None
+                        return const_str(a.args[0]), add
+        # fall back: any find/index with a literal needle in the branch
+        for (fn, n) in self.branch_nodes(link):
+            fu = norm.find_use(self.ctx, fn, n)
+            if fu is not None and isinstance(fu[1], bytes):
+                return fu[1], None
         return None, None
 
     def long_string_terminator(self, link):
@@ -261,10 +398,7 @@ class LexerSource:
         re.search(prefix + self.X + suffix, s) -- prefix/suffix regex source --
         or s.find(prefix + self.X + suffix) -- literal text.  Literal text is
         returned regex-escaped so both spellings compare equal."""
-        f = self.f
-
         def parts_of(e):
-            e = norm.subst_locals(f.node, e)
             parts = []
 
             def flat(x):
@@ -277,24 +411,23 @@ class LexerSource:
             if len(parts) == 3 and isinstance(parts[1], ast.Attribute) and \
                     isinstance(parts[1].value, ast.Name) and \
                     parts[1].value.id == 'self':
-                a = norm.fold_bytes(self.ctx, f, parts[0])
-                b = norm.fold_bytes(self.ctx, f, parts[2])
-                if a is not None and b is not None:
+                a = const_str(parts[0])
+                b = const_str(parts[2])
+                if isinstance(a, bytes) and isinstance(b, bytes):
                     return a, parts[1].attr, b
             return None
-        for st in link['body']:
-            for n in walk_own(st):
-                if isinstance(n, ast.Call) and self.model.ext_name(
-                        self.module, n.func) == 're.search' and n.args:
-                    r = parts_of(n.args[0])
-                    if r:
-                        return r
-                if isinstance(n, ast.Call) and \
-                        isinstance(n.func, ast.Attribute) and \
-                        n.func.attr in ('find', 'index') and n.args:
-                    r = parts_of(n.args[0])
-                    if r:
-                        return (re.escape(r[0]), r[1], re.escape(r[2]))
+        for (fn, n) in self.branch_nodes(link):
+            if isinstance(n, ast.Call) and self.model.ext_name(
+                    fn.module, n.func) == 're.search' and n.args:
+                r = parts_of(n.args[0])
+                if r:
+                    return r
+            if isinstance(n, ast.Call) and \
+                    isinstance(n.func, ast.Attribute) and \
+                    n.func.attr in ('find', 'index') and n.args:
+                r = parts_of(n.args[0])
+                if r:
+                    return (re.escape(r[0]), r[1], re.escape(r[2]))
         return None
 
     def string_skip_set(self, link):
@@ -304,7 +437,7 @@ class LexerSource:
         calls are followed."""
         skip = set()
         uses_table = False
-        for (fn, n) in norm.walk_deep(self.model, self.f, list(link['body'])):
+        for (fn, n) in self.branch_nodes(link):
             ru = norm.regex_use(self.ctx, fn, n)
             if ru is not None and ru.method == 'match':
                 skip |= rx.first_bytes(rx.build(ru.pattern))
@@ -321,11 +454,10 @@ class LexerSource:
         return frozenset(skip)
 
     def token_class_in(self, link):
-        for st in link['body']:
-            for n in walk_own(st):
-                if isinstance(n, ast.Call) and isinstance(n.func, ast.Name) \
-                        and n.func.id in KIND_OF_CLASS:
-                    return n.func.id
+        for (_fn, n) in self.branch_nodes(link):
+            if isinstance(n, ast.Call) and isinstance(n.func, ast.Name) \
+                    and n.func.id in KIND_OF_CLASS:
+                return n.func.id
         return None
 
 
